@@ -205,6 +205,30 @@ fn check_reader(c: i32) -> Result<(), Fail> {
             Err(e) => return Err(Fail::new("wrong-error", format!("ShapeReader::new with header code {}: {:?}", c, e))),
             Ok(_) => return Err(Fail::new("invalid-header-accepted", format!("ShapeReader::new accepted header code {}", c))),
         }
+        // invalid code in the header of the .shx that accompanies a valid .shp: in memory and opened by path
+        {
+            let mut shx = enc.shx.clone();
+            shx[32..36].copy_from_slice(&c.to_le_bytes());
+            match ShapeReader::with_shx(Cursor::new(enc.shp.clone()), Cursor::new(shx.clone())) {
+                Err(Error::InvalidShapeType(x)) if x == c => {}
+                Err(e) => return Err(Fail::new("wrong-error", format!("ShapeReader::with_shx with .shx header code {}: {:?}", c, e))),
+                Ok(_) => return Err(Fail::new("invalid-header-accepted", format!("ShapeReader::with_shx accepted .shx header code {}", c))),
+            }
+            let p = std::path::PathBuf::from(format!("/verif/target/scratch/{}", std::process::id())).join(format!("c19-{:?}.shp", std::thread::current().id()).replace(['(', ')'], ""));
+            if let Some(dir) = p.parent() {
+                let _ = std::fs::create_dir_all(dir);
+            }
+            if std::fs::write(&p, &enc.shp).is_ok() && std::fs::write(p.with_extension("shx"), &shx).is_ok() {
+                let r = ShapeReader::from_path(&p);
+                let _ = std::fs::remove_file(&p);
+                let _ = std::fs::remove_file(p.with_extension("shx"));
+                match r {
+                    Err(Error::InvalidShapeType(x)) if x == c => {}
+                    Err(e) => return Err(Fail::new("wrong-error", format!("ShapeReader::from_path with .shx header code {}: {:?}", c, e))),
+                    Ok(_) => return Err(Fail::new("invalid-header-accepted", format!("ShapeReader::from_path accepted a .shx whose header carries the invalid code {}", c))),
+                }
+            }
+        }
         // invalid record code
         enc.shp[108..112].copy_from_slice(&c.to_le_bytes());
         let mut r = ShapeReader::new(Cursor::new(enc.shp)).map_err(|e| Fail::new("open-error", format!("{:?}", e)))?;
